@@ -134,7 +134,8 @@ func (p *Prog) FnOr(rel, recv, name string) *ssa.Function {
 	case "oracle.doneRead":
 		var out []*ssa.Function
 		for _, f := range p.Funcs {
-			if !p.recvIs(f, "oracle") || readMark == nil {
+			// a method of the oracle, or (after a refactoring) a function of the package that is handed the oracle
+			if f.Pkg != p.SSAPkg[p.ModPath] || readMark == nil || (f.Object() != nil && f.Object().Exported()) {
 				continue
 			}
 			direct := false
@@ -176,6 +177,33 @@ func (p *Prog) FnOr(rel, recv, name string) *ssa.Function {
 			})
 			if hasMap && p.FuncMayDo(f, markCalls(p, readMark, "DoneUntil")) {
 				out = append(out, f)
+			}
+		}
+		if len(out) == 0 {
+			// a plain function that is handed the watermark: entries in, entries out, a map of the newest versions inside
+			entry := p.Named("types", "Entry")
+			isEntries := func(t types.Type) bool {
+				sl, ok := t.Underlying().(*types.Slice)
+				return ok && entry != nil && p.isModuleNamed(sl.Elem()) == entry
+			}
+			for _, f := range p.Funcs {
+				if f.Pkg != p.SSAPkg[p.ModPath] || f.Signature.Results().Len() != 1 || !isEntries(f.Signature.Results().At(0).Type()) {
+					continue
+				}
+				takes, hasMap := false, false
+				for _, q := range f.Params {
+					if isEntries(q.Type()) {
+						takes = true
+					}
+				}
+				eachInstr(f, func(ins ssa.Instruction) {
+					if _, ok := ins.(*ssa.MapUpdate); ok {
+						hasMap = true
+					}
+				})
+				if takes && hasMap {
+					out = append(out, f)
+				}
 			}
 		}
 		return one(out)
